@@ -148,7 +148,10 @@ def fields(draw, versions: list[int], flex: set[int], top: int, depth: int, stru
                         if (nlo, nhi) == (lo, hi) and draw(st.booleans()):
                             f["default"] = "null"
                     if t == "string" and "default" not in f and draw(st.integers(0, 2)) == 0:
-                        f["default"] = draw(st.sampled_from(["", "x", "default value", "it's", 'say "hi" now', "0x10"]))
+                        f["default"] = draw(st.sampled_from(["", "x", "default value", "it's", 'say "hi" now', "0x10",
+                                                             # what source-text escaping must survive: backslash, non-ASCII, a character
+                                                             # beyond the BMP, a control character, a brace
+                                                             "back\\slash", "caf\u00e9 \u4e2d", "\U0001f680 launch", "tab\there", "{curly}"]))
                     if t == "string" and draw(st.integers(0, 5)) == 0:
                         f["entityType"] = draw(st.sampled_from([k for k, (_n, b) in ENTITY_TYPES.items() if b == "string"]))
         elif shape <= 7:  # primitive array
@@ -193,7 +196,7 @@ def fields(draw, versions: list[int], flex: set[int], top: int, depth: int, stru
                 elif mt == "float64":
                     m["default"] = draw(st.sampled_from(["0.0", "1.5", "-2.5", "-0.0"]))
                 else:
-                    m["default"] = draw(st.sampled_from(["", "x", "default value"]))
+                    m["default"] = draw(st.sampled_from(["", "x", "default value", "\U0001f680", "caf\u00e9"]))
                 members.append(m)
             f["fields"] = members
             force_tag = draw(st.integers(0, 3)) != 0
